@@ -128,8 +128,8 @@ func (p *Proxy) serveClients(ctx context.Context) {
 func (p *Proxy) forwardRpc(source string, rpc *goatorepo.Rpc) {
 	// Sanity check RPC first
 	if rpc.Header == nil || rpc.Header.Source != source {
-		log.Warn().Msgf("Bad Rpc: %v", rpc)
-		log.Panic().Msg("TODO: handle invalid RPC here (log and ignore?)")
+		log.Warn().Msgf("Bad Rpc from %s: ignoring: %v", source, rpc)
+		return
 	}
 
 	// Apply any sort of address translation first: this allows implementing a
